@@ -72,6 +72,13 @@ func genC01(w *World, res *CheckResult) {
 	res.Obls = append(res.Obls, selectObls(g.obls, `/post\[(value|below|stack|ip)\]$`, `inv-(init|pres)\[(stack-mem|filled|stack|pops|count|i|args-valid)\]`, `/lib-pre:reflect\.Value\.Call`, `^vm\.VM\.Run/pre-sat$`, `/cover$`)...)
 	res.Assumptions = append(res.Assumptions, g.notes...)
 	res.Functions = append(res.Functions, g.funcs...)
+	// literals: number classification of the parser (cells of C12)
+	{
+		tmp := &CheckResult{}
+		genC12(w, tmp)
+		res.Obls = append(res.Obls, selectObls(tmp.Obls, `^parser\.parsePrimaryExpression\[Number\]/`)...)
+		res.Functions = append(res.Functions, "parser.parser.parsePrimaryExpression")
+	}
 	// run-time helpers: library preconditions (a violated one is a failure the definition does not name)
 	res.Obls = append(res.Obls, selectObls(genPureAll(w), `^vm\.slice/(lib-pre:|pre-sat)`)...)
 	res.Functions = append(res.Functions, "vm.slice")
@@ -120,6 +127,8 @@ func genC15(w *World, res *CheckResult) {
 		res.Obls = append(res.Obls, selectObls(e14.obls, `^checker\.combined\[`)...)
 	}
 	verifyInit(w, res, "compiler")
+	// a conditional's static type is one both branch values have (cells of C03): a wrong int here switches on the int-only rewrites
+	genCheckerConditional(w, res)
 	// the optimizer's type-directed rewrites fire only for operands of exactly the type they are valid for
 	{
 		tmp := &CheckResult{}
